@@ -4,7 +4,7 @@ import collections, json, os, random
 from .. import terms, vmfam, vmreplay, vmtrace
 from ..tlaparse import iter_dump, to_json
 
-QUICK_FAMILIES = ['stack', 'dipstack', 'adt', 'optlist', 'control', 'text', 'logic', 'arith', 'env', 'hash']
+QUICK_FAMILIES = ['stack', 'dipstack', 'adt', 'optlist', 'control', 'text', 'logic', 'arith', 'env', 'hash', 'collget']
 REPO_TESTS = ['tests/unit_tests/test_michelson/test_repl/test_opcodes.py', 'tests/unit_tests/test_michelson/test_repl/test_macros.py',
               'tests/unit_tests/test_michelson/test_repl/test_lambda.py', 'tests/unit_tests/test_michelson/test_repl/test_execution.py']
 
@@ -66,6 +66,7 @@ def run_families(ctx, prop, name, fams, extra_inv='', filt=None, replay_fn=None)
         if not st['hist']:
             continue
         parent = key[:3] + (st['hist'][:-1],)
+        seen_ops[st['hist'][-1][0]] += 1      # vacuity is a matter of what the model enabled, whether or not the replay of an extension is shadowed
         if parent in bad:          # only the first divergence of a program is reported; its extensions are shadowed
             bad.add(key)
             ctx.skip('extension of a program that already diverged')
@@ -81,7 +82,6 @@ def run_families(ctx, prop, name, fams, extra_inv='', filt=None, replay_fn=None)
             cls = None
         ctx.replayed += 1
         n += 1
-        seen_ops[st['hist'][-1][0]] += 1
         ctx.count(key, nontrivial=any(i[0] != 'PUSH' for i in st['hist']))
         if cls is None and len(st['hist']) == fams[fname]['depth'] and n % 997 == 1:
             ctx.sample({'family': fname, 'init': st['init'], 'program': st['hist'], 'status': st['status'], 'stack': st['stack']}, limit=8)
@@ -198,7 +198,7 @@ META = {
     'category': 'model_checking',
     'text': ('MichSem.tla is a reference semantics of the Michelson core (static typing Ty + big-step Run over typed slots, ~95 instruction forms); VM.tla turns it '
              'into a state machine whose behaviours are exactly the well-typed programs of an instruction family. TLC enumerates every program up to the '
-             'depth bound for 9 families (stack, adt, option/list, control/lambda, text, logic, arithmetic, environment, hashing), checking type preservation '
+             'depth bound for 11 families (stack, stack under DIP, adt, option/list, control/lambda, text, logic, arithmetic, environment, hashing, map lookups), checking type preservation '
              'of the reference itself; every reachable state is replayed in pytezos and the full stack or failure compared; and every instruction event the '
              'interpreter executes during the repository\'s own opcode/macro/lambda/scenario tests (recorded by the PYTEZOS_VERIF_TRACE hook) is validated by TLC '
              'against the same semantics.'),
